@@ -256,20 +256,7 @@ func runC05(c *Ctx) {
 	var sel *ssa.Select
 	allInstrs(send, func(in ssa.Instruction) {
 		if s, ok := in.(*ssa.Select); ok {
-			// the wait: the select with a timer case (a later non-blocking re-test of the stop channel is not it)
-			hasTimer := false
-			for _, stt := range s.States {
-				for v := range backSlice(stt.Chan) {
-					if cc, ok := v.(*ssa.Call); ok {
-						if f := calleeOf(cc); f != nil && f.FullName() == "time.After" {
-							hasTimer = true
-						}
-					}
-				}
-			}
-			if sel == nil || hasTimer {
-				sel = s
-			}
+			sel = s
 		}
 	})
 	var waitDur ssa.Value
